@@ -90,7 +90,7 @@ package erpc
 //@   ensures[one-write] @C03 ghost.writeAttempts == old(ghost.writeAttempts) + 1 && ghost.writesOK == old(ghost.writesOK) + (statOK(result) ? 1 : 0) && ghost.lastWriteOK == statOK(result)
 //@   requires[through-callers-pipe] @C12 mo.xferPipe.#inheritedFrom == as(c.input, type(*socket.message)).xferPipe
 //@   ensures[pipe-kept] @C12 mo.xferPipe == old(mo.xferPipe) && mo.xferPipe.filters == old(mo.xferPipe.filters)
-//@   ensures[error-reply-shape] @C04 !statOK(stat) ==> mo.status == stat && mo.body == nil && mo.bodyCodec == 0
+//@   ensures[error-reply-shape] @C04 @C03 !statOK(stat) ==> mo.status == stat && mo.body == nil && mo.bodyCodec == 0
 //@   ensures[ok-reply-untouched] @C04 statOK(stat) ==> mo.status == old(mo.status) && mo.body == old(mo.body) && mo.bodyCodec == old(mo.bodyCodec)
 //@   ensures[service-method-restored] mo.serviceMethod == old(mo.serviceMethod)
 
